@@ -690,23 +690,29 @@ Fixpoint run_sessions (fv : option bytes) (ss : list sess) : list result :=
 
 (* One iteration of negotiateSession's loop (one call of the negotiator) as a
    step of a session; [session_loop] is its iteration (C02/Inter.v). *)
-Record lstate := mkL { l_m : mstate; l_data : option nstate; l_istee : bool }.
+(* l_calls counts the calls of the negotiator that went past the tee-wrapping
+   branch (those that call negotiateFeatures unless the header exchange fails):
+   a ghost of the session's own history, used to state C02_first_list_per_session *)
+Record lstate := mkL { l_m : mstate; l_data : option nstate; l_istee : bool; l_calls : nat }.
 Inductive progress := Running (l : lstate) | Done (r : result).
 
 Definition loop_step (tee : bool) (c : config) (l : lstate) : progress :=
   let m := l_m l in
   if has (m_bits m) st_Ready then Done (mkR ROk (m_bits m) m)
-  else if tee && negb (l_istee l) then Running (mkL (tee_state m) (Some (ns_of (l_data l))) true)
+  else if tee && negb (l_istee l) then Running (mkL (tee_state m) (Some (ns_of (l_data l))) true (l_calls l))
   else
     match negotiator_body c m (ns_of (l_data l)) with
     | (m1, Good (mask, restart, ns1)) =>
-        Running (mkL (next_state restart mask m1) (Some ns1) (if restart then false else l_istee l))
+        Running (mkL (next_state restart mask m1) (Some ns1) (if restart then false else l_istee l) (S (l_calls l)))
     | (m1, Bad e) => Done (mkR (RErr e) (m_bits (fail_state m1)) (fail_state m1))
     | (m1, Stuck) => Done (mkR RStuck (m_bits m1) m1)
     end.
 
 (* a session sharing the feature value with others *)
 Record isess := mkIS { is_tee : bool; is_cfg : config; is_prog : progress }.
+
+(* the `first` argument the session's next negotiateFeatures call will get *)
+Definition next_first (l : lstate) : bool := ns_first (ns_of (l_data l)).
 
 Definition pstate (p : progress) : mstate :=
   match p with Running l => l_m l | Done r => r_state r end.
@@ -718,7 +724,7 @@ Definition step_sess (fv : option bytes) (s : isess) : option bytes * isess :=
   match is_prog s with
   | Done _ => (fv, s)
   | Running l =>
-      let p := loop_step (is_tee s) (is_cfg s) (mkL (set_fv fv (l_m l)) (l_data l) (l_istee l)) in
+      let p := loop_step (is_tee s) (is_cfg s) (mkL (set_fv fv (l_m l)) (l_data l) (l_istee l) (l_calls l)) in
       (m_fv (pstate p), mkIS (is_tee s) (is_cfg s) p)
   end.
 
@@ -741,7 +747,7 @@ Fixpoint sched_run (sched : list nat) (fv : option bytes) (ss : list isess) : op
 
 Definition start_sess (fv : option bytes) (s : sess) : isess :=
   mkIS (s_tee s) (s_cfg s)
-       (Running (mkL (init_state (s_cfg s) fv (s_bits s) (s_in s) (s_tls s) (s_outs s) (s_choices s)) None false)).
+       (Running (mkL (init_state (s_cfg s) fv (s_bits s) (s_in s) (s_tls s) (s_outs s) (s_choices s)) None false 0)).
 
 (* ------------------------------------------------------------------ correspondence record *)
 
